@@ -172,12 +172,16 @@ pub struct SysCase {
     pub blocks: Vec<BlockSpec>,
     pub requests: Vec<Rq>,
     pub ram_seed: u64,
+    /// the host has fast loading switched on while the deck plays: the playing tape must still
+    /// deliver every block, in order, through the EAR input
+    #[serde(default)]
+    pub fastload_enabled: bool,
 }
 
 pub fn check_sys(c: &SysCase, rec: &mut Rec) -> Result<(), String> {
     let blocks: Vec<Vec<u8>> = c.blocks.iter().map(block_bytes).collect();
     let image = tap::write(&blocks);
-    let mut rig = c10::mk_rig(c.machine, c.ram_seed, false);
+    let mut rig = c10::mk_rig(c.machine, c.ram_seed, c.fastload_enabled);
     rig.e.load_tape(Tape::Tap(DynAsset::new(MemAsset::new(image)))).map_err(|x| format!("load_tape: {:?}", x))?;
     rig.e.play_tape();
     for (k, rq) in c.requests.iter().enumerate() {
@@ -228,6 +232,9 @@ pub fn check_sys(c: &SysCase, rec: &mut Rec) -> Result<(), String> {
         }
     }
     rec.class(if c.machine == Machine::K48 { "48k" } else { "128k" });
+    if c.fastload_enabled {
+        rec.class("deck-playing-with-fast-load-enabled");
+    }
     Ok(())
 }
 
@@ -265,8 +272,9 @@ pub fn sys_strategy() -> impl Strategy<Value = SysCase> {
         proptest::collection::vec(small_block(), 1..=2),
         proptest::collection::vec(c10::rq_strategy(), 2..=2),
         any::<u64>(),
+        any::<bool>(),
     )
-        .prop_map(|(machine, blocks, requests, ram_seed)| SysCase { machine, blocks, requests, ram_seed })
+        .prop_map(|(machine, blocks, requests, ram_seed, fastload_enabled)| SysCase { machine, blocks, requests, ram_seed, fastload_enabled })
 }
 
 pub fn run(run: &mut Run) {
@@ -284,7 +292,7 @@ pub fn replay(run: &mut Run, phase: &str, case: &serde_json::Value) -> Result<()
 }
 
 pub const LEVEL: &str = "exploration";
-pub const RULE: &str = "waveform: TAP images of 1..3 blocks (all flag bytes, payload 0..260 bytes across the 128-byte refill boundary, right/wrong checksum) played through the pulse generator with time advanced by a cycled schedule of 1..64 steps of 1..16 T-states (uniform, all-1, all-16, sawtooth, instruction-like mixes); every interval between EAR edges is compared with the nominal list synthesised from the bytes: pilot count 8063 (+-1) for flag 0x00 / >= 3223 otherwise, 667, 735, two equal 855/1710 pulses per bit MSB first for every byte, pause 3.0..4.0 M T; each pulse within [nominal, nominal+32]; count and order exact. rom-loader-real-time: the real ROM LD-BYTES is called (requests as in C10) while the tape plays on the emulator; carry, IX, DE and memory must equal the LD-BYTES model of the block's bytes (which C10 shows fast loading equals). non-trivial (waveform) = block with >= 2 distinct bytes, length other than 19/6914, schedule with >= 3 distinct step sizes; (system) every request; distinct = hash of (block bytes, schedule) / (case, request)";
+pub const RULE: &str = "waveform: TAP images of 1..3 blocks (all flag bytes, payload 0..260 bytes across the 128-byte refill boundary, right/wrong checksum) played through the pulse generator with time advanced by a cycled schedule of 1..64 steps of 1..16 T-states (uniform, all-1, all-16, sawtooth, instruction-like mixes); every interval between EAR edges is compared with the nominal list synthesised from the bytes: pilot count 8063 (+-1) for flag 0x00 / >= 3223 otherwise, 667, 735, two equal 855/1710 pulses per bit MSB first for every byte, pause 3.0..4.0 M T; each pulse within [nominal, nominal+32]; count and order exact. rom-loader-real-time: the real ROM LD-BYTES is called (requests as in C10) while the tape plays on the emulator (in half of the cases with the host's fast-load setting switched on: a playing deck must still deliver every block through EAR); carry, IX, DE and memory must equal the LD-BYTES model of the block's bytes (which C10 shows fast loading equals). non-trivial (waveform) = block with >= 2 distinct bytes, length other than 19/6914, schedule with >= 3 distinct step sizes; (system) every request; distinct = hash of (block bytes, schedule) / (case, request)";
 pub const ASSUMPTIONS: &[&str] = &[
     "pulse generator is driven through the cfg(rustzx_verif) re-export of Tap/TapeImpl; time between toggles is measured at the granularity of the schedule steps",
     "the first pilot pulse of a block may merge with the preceding silence (pilot count tolerance of one)",
